@@ -128,9 +128,18 @@ func (c05Prop) Gen(t *Tape, ph *PhaseCfg) Case {
 	// a quirk of the library that is outside this property)
 	if t.Draw(4) == 0 {
 		l := tc.Path[len(tc.Path)-1]
+		bare := true // no sub-command on the path declares anything: re-initialising them is harmless
+		for i := 1; i < len(tc.Path); i++ {
+			if len(tc.Path[i].Decls) > 0 {
+				bare = false
+			}
+		}
 		for _, cb := range []*CB{&l.Before, &l.Action, &l.After} {
 			if cb.Kind != CBAbsent && t.Draw(2) == 0 {
 				cb.Help = 1 + t.Draw(2)
+				if bare && t.Draw(2) == 0 {
+					cb.HelpTag = tc.Path[t.Draw(len(tc.Path))].Tag // the help of an ancestor (or of the command itself)
+				}
 			}
 		}
 		c.Stream = drawStream(t)
